@@ -33,6 +33,11 @@ Proof. unfold isxdigit, isdigit, in_range, tokch, isspace, in_range. lia. Qed.
 Lemma isuf_not_xdigit suf rest : rest_ok0 rest -> isxdigit (hd0 (isuf_text suf ++ rest)) = false.
 Proof. intros Hr. destruct suf; cbn [isuf_text app]; [now apply rest_not_xdigit|reflexivity|reflexivity]. Qed.
 
+Lemma takewhile_all f (l : list Z) : Forall (fun c => f c = true) l -> takewhile f l = l.
+Proof. induction 1 as [|c l Hc _ IH]; cbn [takewhile]; [reflexivity|now rewrite Hc, IH]. Qed.
+Lemma dropwhile_all f (l : list Z) : Forall (fun c => f c = true) l -> dropwhile f l = [].
+Proof. induction 1 as [|c l Hc _ IH]; cbn [dropwhile]; [reflexivity|now rewrite Hc]. Qed.
+
 Section Tokens.
 Variables dec2f dec2d : list Z -> Z.
 
@@ -164,7 +169,7 @@ Proof.
 Qed.
 
 Lemma tok_hex : sgn neg n < 2 ^ 63 -> - 2 ^ 63 <= sgn neg n ->
-  tok_core dec2f dec2d (gtok_val (GHex neg ds suf)) hextok.
+  tok_core dec2f dec2d (gtok_val dec2f dec2d (GHex neg ds suf)) hextok.
 Proof.
   intros Hhi Hlo rest Hr. pose proof (rest_ok_hd _ Hr) as Hh.
   destruct (hex_default rest) as (c & tl & E & Hfc & Hid & Hrm & Hdt & _).
@@ -185,6 +190,108 @@ Proof.
     + rewrite Hi, He. rewrite (rest_ok_paren _ Hr). unfold st64. rewrite Hsat. reflexivity.
 Qed.
 End Hex.
+
+(* ---- "[-]<digits>.<digits>[f|d]" without an exact value -------------------------------- *)
+Section DecFloat.
+Variables (neg : bool) (n1 : Z) (fr : list Z) (suf : fsuf).
+Hypothesis Hn1 : 0 <= n1.
+Hypothesis Hfr : Forall dig fr.
+Notation sg := (if neg then [45] else []).
+
+Lemma dl_dectext : dec_literal neg n1 fr = dectext sg n1 fr.
+Proof. reflexivity. Qed.
+Lemma dl_ok : okdec sg n1 fr.
+Proof. split; [destruct neg; auto|]. split; assumption. Qed.
+
+(* %f reads the literal and stops in front of Y *)
+Lemma dec_sc_f_gen Y : isdigit (hd0 Y) = false -> hd0 Y <> 101 -> hd0 Y <> 69 ->
+  sc_f (dectext sg n1 fr ++ Y) = Some (false, dectext sg n1 fr, Y).
+Proof.
+  intros Hc H1 H2. destruct Y as [|c X].
+  - (* the end of the text: the blank case with the blank cut off *)
+    pose proof (dec_sc_f sg n1 fr dl_ok 32 [] eq_refl ltac:(lia) ltac:(lia)) as H.
+    unfold sc_f in *. rewrite app_nil_r.
+    destruct (dec_nat_nonempty n1 Hn1) as (c0 & tl & E & Hc0). pose proof Hc0 as Hc0'. apply isdigit_spec in Hc0'.
+    assert (Hws : skip_ws (dectext sg n1 fr) = dectext sg n1 fr).
+    { apply skip_ws_nonspace. unfold dectext. destruct neg; cbn [app]; [reflexivity|].
+      rewrite E. cbn [app]. rewrite hd0_cons. unfold isspace, in_range. lia. }
+    rewrite Hws.
+    assert (Hsign : sc_sign (dectext sg n1 fr) = (neg, dec_nat n1 ++ 46 :: fr)).
+    { unfold dectext. destruct neg; cbn [app]; [reflexivity|].
+      rewrite E. cbn [app]. rewrite sc_sign_other by lia. reflexivity. }
+    rewrite Hsign.
+    assert (Hnohex : (hd0 (dec_nat n1 ++ 46 :: fr) =? 48) &&
+                     ((at_ (dec_nat n1 ++ 46 :: fr) 1 =? 120) || (at_ (dec_nat n1 ++ 46 :: fr) 1 =? 88)) = false).
+    { pose proof (dec_nat_digits n1 Hn1) as Hd. rewrite E in *. cbn [app]. rewrite hd0_cons.
+      inversion Hd as [|? ? _ Htl]; subst. unfold at_. cbn [nth app].
+      destruct Htl as [|d tl' Hd' _]; cbn [app nth].
+      - now rewrite andb_false_r.
+      - apply isdigit_spec in Hd'. replace ((d =? 120) || (d =? 88)) with false by lia. now rewrite andb_false_r. }
+    rewrite Hnohex.
+    rewrite takewhile_app, dropwhile_app by (try apply dec_nat_digits; try assumption; reflexivity).
+    rewrite hd0_cons. change (46 =? 46) with true. cbv iota. cbn [skipn].
+    rewrite (takewhile_all isdigit fr Hfr), (dropwhile_all isdigit fr Hfr).
+    assert (Hlen : Nat.eqb (length (dec_nat n1) + length fr) 0 = false).
+    { apply Nat.eqb_neq. rewrite E. cbn [length]. lia. }
+    rewrite Hlen. cbn [opt_exp]. f_equal. f_equal. f_equal.
+    rewrite Nat.sub_0_r. apply firstn_all.
+  - rewrite hd0_cons in *. now apply (dec_sc_f sg n1 fr dl_ok).
+Qed.
+
+Definition fltok : list Z := dectext sg n1 fr ++ fsuf_text suf.
+
+Lemma fl_tok_end rest : rest_ok0 rest -> tok_end (fltok ++ rest) = rest.
+Proof.
+  intros Hr. unfold fltok. rewrite <- app_assoc.
+  rewrite (dec_tok_end sg n1 fr dl_ok (fsuf_text suf) rest).
+  - exact (tok_end_app [] rest (Forall_nil _) Hr).
+  - destruct suf; repeat constructor.
+  - pose proof (rest_ok_hd _ Hr). destruct suf; cbn [fsuf_text app]; rewrite ?hd0_cons; lia.
+Qed.
+
+Lemma fl_fmtstr rest : rest_ok0 rest ->
+  scanf_fmtstr (fltok ++ rest) = Some (match suf with FsNone => F_f | FsF => F_ff | FsD => F_lfd end).
+Proof.
+  intros Hr. pose proof (rest_ok_hd _ Hr) as Hh. unfold scanf_fmtstr. rewrite (fl_tok_end rest Hr).
+  unfold fltok. rewrite <- app_assoc.
+  destruct (dec_after_int sg n1 fr dl_ok (fsuf_text suf ++ rest)) as ((vi & Hi) & (vd & Hd)). rewrite Hi, Hd.
+  cbn [after_int bind_lit lit]. change (46 =? 104) with false. change (46 =? 105) with false. cbv iota.
+  assert (Hsp : same_pos (46 :: fr ++ fsuf_text suf ++ rest) rest = false).
+  { replace (46 :: fr ++ fsuf_text suf ++ rest) with ((46 :: fr ++ fsuf_text suf) ++ rest)
+      by (cbn [app]; now rewrite <- app_assoc). now apply same_pos_longer. }
+  rewrite Hsp. unfold after_flt.
+  rewrite dec_sc_f_gen.
+  - destruct suf; cbn [fsuf_text app bind_lit lit].
+    + rewrite !lit_none by lia. now rewrite same_pos_refl.
+    + change (102 =? 100) with false. cbv iota. rewrite Z.eqb_refl. now rewrite same_pos_refl.
+    + rewrite Z.eqb_refl. now rewrite same_pos_refl.
+  - destruct suf; cbn [fsuf_text app]; rewrite ?hd0_cons; [unfold isdigit, in_range; lia|reflexivity|reflexivity].
+  - destruct suf; cbn [fsuf_text app]; rewrite ?hd0_cons; lia.
+  - destruct suf; cbn [fsuf_text app]; rewrite ?hd0_cons; lia.
+Qed.
+
+Lemma fl_sc_f rest : rest_ok0 rest -> sc_f (fltok ++ rest) = Some (false, dectext sg n1 fr, fsuf_text suf ++ rest).
+Proof.
+  intros Hr. pose proof (rest_ok_hd _ Hr) as Hh. unfold fltok. rewrite <- app_assoc. apply dec_sc_f_gen.
+  - destruct suf; cbn [fsuf_text app]; rewrite ?hd0_cons; [unfold isdigit, in_range; lia|reflexivity|reflexivity].
+  - destruct suf; cbn [fsuf_text app]; rewrite ?hd0_cons; lia.
+  - destruct suf; cbn [fsuf_text app]; rewrite ?hd0_cons; lia.
+Qed.
+
+Lemma tok_flt : tok_core dec2f dec2d (gtok_val dec2f dec2d (GFlt neg n1 fr suf)) fltok.
+Proof.
+  intros rest Hr.
+  destruct (dec_default sg n1 fr dl_ok (fsuf_text suf ++ rest)) as (c & tl & E & Hfc & Hid & Hrm & Hdt & _).
+  pose proof (fl_fmtstr rest Hr) as Hf. pose proof (fl_tok_end rest Hr) as He. pose proof (fl_sc_f rest Hr) as Hs.
+  unfold fltok in *. rewrite <- app_assoc in *. rewrite E in *. split; intros.
+  - unfold skip_core. rewrite Hfc, Hrm, Hid, Hdt, same_pos_refl. cbn [negb].
+    unfold skip_numeric. rewrite Hf. destruct suf; cbn [gtok_val av_type numfmt_type]; rewrite He;
+      rewrite (rest_ok_paren _ Hr); reflexivity.
+  - unfold scan_core. rewrite Hfc, Hrm, Hid, Hdt, same_pos_refl. cbn [negb].
+    unfold scan_numeric, scan_numeric_once. rewrite Hf. destruct suf; cbn [gtok_val]; rewrite Hs, He;
+      rewrite (rest_ok_paren _ Hr); reflexivity.
+Qed.
+End DecFloat.
 End Tokens.
 
 (* ---- comments between the words ------------------------------------------------------------ *)
@@ -325,12 +432,18 @@ Definition wf_gtok (g : gtok) : Prop :=
   | GPrinted v _ _ => good_val v
   | GDecI v => - 2 ^ 31 <= v < 2 ^ 31
   | GHex _ ds _ => xdigits ds /\ hexval ds < 2 ^ 63
+  | GFlt _ n1 fr _ => 0 <= n1 /\ Forall dig fr
   end.
 Definition wf_gword (w : gword) : Prop := wf_gtok (g_tok w) /\ sepw (g_ws w) /\ cmts (g_cmts w).
 
-Lemma gtok_tokof g t : wf_gtok g -> gtok_text g = Some t -> tokof dec2f dec2d (gtok_val g) t.
+Lemma gtok_tokof g t : wf_gtok g -> gtok_text g = Some t -> tokof dec2f dec2d (gtok_val dec2f dec2d g) t.
 Proof.
-  destruct g as [v o cols|v|neg ds suf]; cbn [wf_gtok gtok_text gtok_val]; intros Hw Ht.
+  destruct g as [v o cols|v|neg ds suf|neg n1 fr suf]; cbn [wf_gtok gtok_text gtok_val]; intros Hw Ht.
+  4:{ inversion Ht; subst. destruct Hw as [Hn Hf].
+      split; [exact (tok_core_reads _ _ _ _ (tok_flt dec2f dec2d neg n1 fr suf Hn Hf))|].
+      split; [|destruct suf; exact I].
+      destruct (dec_default (if neg then [45] else []) n1 fr (dl_ok neg n1 fr Hn Hf) (fsuf_text suf)) as (c & tl & E & _ & _ & _ & _ & Hfo).
+      rewrite dl_dectext, E. eexists _, _. split; [reflexivity|exact Hfo]. }
   - destruct (print_scalar o v cols) as [[[t' w'] c']|] eqn:E; [|discriminate]. inversion Ht; subst.
     exact (proj1 (scalar_tok dec2f dec2d o v cols _ _ _ Hw E)).
   - inversion Ht; subst. split; [exact (tok_core_reads _ _ _ _ (tok_deci dec2f dec2d v Hw))|]. split; [|exact I].
@@ -343,7 +456,7 @@ Proof.
     rewrite app_nil_r in E. unfold hextok in E. cbn [app] in E |- *. rewrite E. eexists _, _. split; [reflexivity|exact Hfo].
 Qed.
 
-Lemma gspell_clang s : forall T, Forall wf_gword s -> gspell s = Some T -> clang (gdenote s) T.
+Lemma gspell_clang s : forall T, Forall wf_gword s -> gspell s = Some T -> clang (gdenote dec2f dec2d s) T.
 Proof.
   induction s as [|w s IH]; intros T Hw Hs; cbn [gspell gdenote map] in *.
   - inversion Hs. constructor.
@@ -359,14 +472,14 @@ Qed.
 Theorem gsentences_agree s T :
   Forall wf_gword s -> gspell s = Some T ->
   count_printed_arg_vals dec2f dec2d T = Ok (true, Z.of_nat (length s)) /\
-  scan_arg_vals dec2f dec2d T (Z.of_nat (length s)) = Ok (gdenote s, []).
+  scan_arg_vals dec2f dec2d T (Z.of_nat (length s)) = Ok (gdenote dec2f dec2d s, []).
 Proof.
   intros Hw Hs. pose proof (gspell_clang s T Hw Hs) as HL.
-  assert (Hlen : length (gdenote s) = length s) by (unfold gdenote; apply map_length).
+  assert (Hlen : length (gdenote dec2f dec2d s) = length s) by (unfold gdenote; apply map_length).
   split.
   - unfold count_printed_arg_vals.
     assert (E : skip_comments_ws (S (length (skip_ws T))) (skip_ws T) = T).
-    { destruct (gdenote s) as [|v vs] eqn:Ed.
+    { destruct (gdenote dec2f dec2d s) as [|v vs] eqn:Ed.
       - inversion HL; subst. reflexivity.
       - destruct (clang_first _ _ _ HL) as (c & r & -> & Hc).
         destruct Hc as (H0 & H47 & H37 & Hsp & H46 & H40).
@@ -378,7 +491,7 @@ Qed.
 
 (* texts that differ only in white space and comments scan to equal values *)
 Theorem gsentences_ws_invariant s1 s2 T1 T2 :
-  Forall wf_gword s1 -> Forall wf_gword s2 -> gdenote s1 = gdenote s2 ->
+  Forall wf_gword s1 -> Forall wf_gword s2 -> gdenote dec2f dec2d s1 = gdenote dec2f dec2d s2 ->
   gspell s1 = Some T1 -> gspell s2 = Some T2 ->
   scan_arg_vals dec2f dec2d T1 (Z.of_nat (length s1)) = scan_arg_vals dec2f dec2d T2 (Z.of_nat (length s2)).
 Proof.
@@ -387,18 +500,20 @@ Proof.
 Qed.
 End Sentences.
 
-(* non-vacuity: "0x1fi" blank "% a comment" line break "-12i" tab "0xffffffff" line break "true" *)
+(* non-vacuity: "0x1fi" blank "% a" line break "-12i" tab "0xffffffff" line break "-0.25f" blank "true" *)
 Definition ex_gsentence : list gword :=
   [ {| g_tok := GHex false [49; 102] SufI; g_ws := [32]; g_cmts := 37 :: [32; 97] ++ 10 :: [] ++ [] |};
     {| g_tok := GDecI (-12); g_ws := [9]; g_cmts := [] |};
     {| g_tok := GHex false [102; 102; 102; 102; 102; 102; 102; 102] SufNone; g_ws := [10]; g_cmts := [] |};
+    {| g_tok := GFlt true 0 [50; 53] FsF; g_ws := [32]; g_cmts := [] |};
     {| g_tok := GPrinted VT {| lossless := true; prec := 2; linelength := 80; compress := false |} 0; g_ws := [32]; g_cmts := [] |} ].
 
-Lemma ex_gsentence_wf :
+Lemma ex_gsentence_wf (dec2f dec2d : list Z -> Z) :
   Forall wf_gword ex_gsentence /\
   gspell ex_gsentence = Some [48; 120; 49; 102; 105; 32; 37; 32; 97; 10; 45; 49; 50; 105; 9;
-                              48; 120; 102; 102; 102; 102; 102; 102; 102; 102; 10; 116; 114; 117; 101] /\
-  gdenote ex_gsentence = [VI 31; VI (-12); VI (-1); VT].
+                              48; 120; 102; 102; 102; 102; 102; 102; 102; 102; 10;
+                              45; 48; 46; 50; 53; 102; 32; 116; 114; 117; 101] /\
+  gdenote dec2f dec2d ex_gsentence = [VI 31; VI (-12); VI (-1); VFl (dec2f [45; 48; 46; 50; 53]); VT].
 Proof.
   split; [|split; reflexivity].
   assert (Hx : forall ds, ds <> [] -> forallb isxdigit ds = true -> xdigits ds)
